@@ -397,13 +397,72 @@ fn family_chunk(idx: u64, out: &mut CaseOut, st: &mut Stats) {
     }
 }
 
+/// three locations where the direct connection X -> Z is much slower than the detour over Y,
+/// trips at X and Z and a maintenance slot at Y in between: a vehicle can drive a -> slot -> c,
+/// but a cannot reach c directly
+fn gap_network(rng: &mut Rng, tag: &str) -> Value {
+    let base = BASE;
+    let shunt_min = *rng.pick(&[0i64, 60, 300]);
+    let shunt_dh = *rng.pick(&[0i64, 60, 300]);
+    let hop = rng.range(5, 30) * 60;
+    let slow = rng.range(8, 30) * 3600;
+    let a_start = base + rng.range(0, 4) * 900;
+    let a_end = a_start + rng.range(1, 4) * 900;
+    let m_start = a_end + hop + 2 * shunt_dh + rng.range(0, 2) * 600;
+    let m_end = m_start + rng.range(1, 4) * 900;
+    let c_start = m_end + hop + 2 * shunt_dh + rng.range(0, 2) * 600;
+    let extra_start = c_start + 3600 + slow; // a trip that a CAN reach directly
+    let t = |x: i64| refmodel::time::format(x);
+    json!({
+        "vehicleTypes": [{"id": format!("{}.V", tag), "capacity": 100, "seats": 60}],
+        "locations": [{"id": format!("{}.X", tag)}, {"id": format!("{}.Y", tag)}, {"id": format!("{}.Z", tag)}],
+        "routes": [
+            {"id": format!("{}.rx", tag), "vehicleType": format!("{}.V", tag), "segments": [{"id": format!("{}.rxs", tag), "order": 0, "origin": format!("{}.X", tag), "destination": format!("{}.X", tag), "distance": 20000, "duration": a_end - a_start}]},
+            {"id": format!("{}.rz", tag), "vehicleType": format!("{}.V", tag), "segments": [{"id": format!("{}.rzs", tag), "order": 0, "origin": format!("{}.Z", tag), "destination": format!("{}.Z", tag), "distance": 30000, "duration": 1800}]}
+        ],
+        "departures": [
+            {"id": format!("{}.da", tag), "route": format!("{}.rx", tag), "segments": [{"id": format!("{}.a", tag), "routeSegment": format!("{}.rxs", tag), "departure": t(a_start), "passengers": 50, "seated": 20}]},
+            {"id": format!("{}.dc", tag), "route": format!("{}.rz", tag), "segments": [{"id": format!("{}.c", tag), "routeSegment": format!("{}.rzs", tag), "departure": t(c_start), "passengers": 50, "seated": 20}]},
+            {"id": format!("{}.de", tag), "route": format!("{}.rz", tag), "segments": [{"id": format!("{}.e", tag), "routeSegment": format!("{}.rzs", tag), "departure": t(extra_start), "passengers": 50, "seated": 20}]}
+        ],
+        "maintenanceSlots": [{"id": format!("{}.m", tag), "location": format!("{}.Y", tag), "start": t(m_start), "end": t(m_end), "trackCount": 2}],
+        "deadHeadTrips": {
+            "indices": [format!("{}.X", tag), format!("{}.Y", tag), format!("{}.Z", tag)],
+            "durations": [[0, hop, slow], [hop, 0, hop], [slow, hop, 0]],
+            "distances": [[0, 9000, 400000], [9000, 0, 9000], [400000, 9000, 0]]
+        },
+        "parameters": {
+            "shunting": {"minimalDuration": shunt_min, "deadHeadTripDuration": shunt_dh},
+            "maintenance": {"maximalDistance": 500000},
+            "costs": {"staff": 10, "serviceTrip": 20, "maintenance": 5, "deadHeadTrip": 100, "idle": 3}
+        }
+    })
+}
+
 fn random_case(ctx: &Ctx, idx: u64, out: &mut CaseOut, st: &mut Stats) {
     let mut rng = Rng::new(mix(&[ctx.seed, hash_str("tour"), idx]));
     let profile = *rng.pick(&[Profile::Ties, Profile::Ties, Profile::NonMetric, Profile::Mixed, Profile::Forbid, Profile::Maint]);
     let mut opts = GenOpts::new(profile, if ctx.thorough() { 8 } else { 5 });
     opts.force_slots = rng.chance(1, 2);
     let tag = format!("t{}c{}", ctx.seed, idx);
-    let input = gen::generate(&mut rng, &opts, &tag);
+    let mut input = gen::generate(&mut rng, &opts, &tag);
+    // a third of the networks gets connections that are much slower than a detour (dead-heads
+    // need not satisfy the triangle inequality)
+    if rng.chance(1, 3) {
+        let n = input["deadHeadTrips"]["indices"].as_array().map(|a| a.len()).unwrap_or(0);
+        if n >= 3 {
+            for _ in 0..rng.usize(1, 4) {
+                let i = rng.usize(0, n - 1);
+                let k = (i + rng.usize(1, n - 1)) % n;
+                input["deadHeadTrips"]["durations"][i][k] = json!(rng.range(6, 30) * 3600);
+            }
+            out.count("networks_with_slow_direct_connections", 1);
+        }
+    }
+    if rng.chance(1, 3) {
+        input = gap_network(&mut rng, &tag);
+        out.count("gap_networks", 1);
+    }
     let b = Bridge::new(&input).expect("bridge");
     out.count("random_networks", 1);
     out.count(&format!("profile.{}", profile.name()), 1);
@@ -446,6 +505,41 @@ fn random_case(ctx: &Ctx, idx: u64, out: &mut CaseOut, st: &mut Stats) {
         if let Ok(Ok(s2)) = guard(|| s.replace_vehicle_by_dummy(id)) {
             if let Some(d) = s2.dummy_iter().next() {
                 judge_tour(&b, s2.tour_of(d).unwrap(), &paths, out, st, &desc, &key);
+            }
+        }
+    }
+    // directed: dummy tours whose consecutive nodes are NOT connectable. A vehicle drives
+    // a -> slot -> c where the detour over the slot is feasible but a cannot reach c directly;
+    // turning it into a dummy strips the slot.
+    let mut found = 0;
+    'outer: for t in 0..inst.types.len() {
+        let trips: Vec<N> = (0..inst.trips.len()).filter(|&i| inst.trips[i].vtype == t).map(N::T).collect();
+        for &a in &trips {
+            for m in 0..inst.slots.len() {
+                let m = N::S(m);
+                if !inst.connectable(a, m) {
+                    continue;
+                }
+                for &c in &trips {
+                    if inst.connectable(m, c) && !inst.connectable(a, c) {
+                        let nodes = vec![N::SD(0), a, m, c, N::ED(0)];
+                        if let Ok(Ok((s, id))) = guard(|| empty.spawn_vehicle_for_path(vt(t), b.nodes(&nodes))) {
+                            if let Ok(Ok(s2)) = guard(|| s.replace_vehicle_by_dummy(id)) {
+                                if let Some(d) = s2.dummy_iter().next() {
+                                    let paths: Vec<Vec<N>> = vec![vec![a], vec![c], vec![m]];
+                                    let key = format!("{}|gap", tag);
+                                    let desc = || json!({"input": input.clone(), "dummy_tour": b.ids(&[a, c])});
+                                    judge_tour(&b, s2.tour_of(d).unwrap(), &paths, out, st, &desc, &key);
+                                    out.count("dummy_tours_with_unconnectable_neighbours", 1);
+                                    found += 1;
+                                    if found >= 3 {
+                                        break 'outer;
+                                    }
+                                }
+                            }
+                        }
+                    }
+                }
             }
         }
     }
